@@ -62,6 +62,19 @@ func (h blockHandler) HandleRPC(stream drpc.Stream, rpc string) error {
 
 func runC12Serve(c c12ServeCase) (r pbt.Result) {
 	var clock int64
+	// goroutines an earlier (failed) case of this process left behind are not this case's
+	inherited := map[int64]bool{}
+	for _, g := range sim.DrpcGoroutines(sim.Snapshot()) {
+		inherited[g.ID] = true
+	}
+	own := func(gs []sim.GInfo) (out []sim.GInfo) {
+		for _, g := range sim.DrpcGoroutines(gs) {
+			if !inherited[g.ID] {
+				out = append(out, g)
+			}
+		}
+		return out
+	}
 	lis := sim.NewListener()
 	mopts := drpcmanager.Options{SoftCancel: c.Soft}
 	srv := drpcserver.NewWithOptions(blockHandler{}, drpcserver.Options{Manager: mopts})
@@ -87,7 +100,7 @@ func runC12Serve(c c12ServeCase) (r pbt.Result) {
 			ar.closes = append(ar.closes, c.(*sim.End).Closes())
 		}
 		for _, g := range sim.Snapshot() {
-			if strings.Contains(g.Frames, "drpcserver.(*Server).ServeOne") {
+			if !inherited[g.ID] && strings.Contains(g.Frames, "drpcserver.(*Server).ServeOne") {
 				ar.serveOnes++
 			}
 		}
@@ -96,7 +109,7 @@ func runC12Serve(c c12ServeCase) (r pbt.Result) {
 	fail := func(f string, a ...any) {
 		r.Fail = fmt.Sprintf(f, a...)
 		var sb strings.Builder
-		for _, g := range sim.DrpcGoroutines(sim.Snapshot()) {
+		for _, g := range own(sim.Snapshot()) {
 			sb.WriteString(g.Frames + "\n\n")
 		}
 		r.Detail = fmt.Sprintf("case=%+v\n%s", c, sb.String())
@@ -275,7 +288,7 @@ func runC12Serve(c c12ServeCase) (r pbt.Result) {
 	}
 	pump()
 	gs := sim.WaitQuiescent()
-	if leaks := sim.DrpcGoroutines(gs); len(leaks) > 0 {
+	if leaks := own(gs); len(leaks) > 0 {
 		fail("library goroutines left behind after Serve returned and the clients closed")
 		return
 	}
